@@ -105,7 +105,9 @@ class E3Driver:
                 n = min(len(ops), n * 2)
         out = dict(payload)
         out["ops"] = ops
-        out["world"] = prune_world(payload["world"], ops) if fails_world(self, payload, ops, sig) else payload["world"]
+        can_prune = getattr(self.mod, "PRUNE", True)
+        out["world"] = prune_world(payload["world"], ops) if can_prune and fails_world(self, payload, ops, sig) \
+            else payload["world"]
         v = self.replay(out)
         if not v or v["signature"] != sig:  # pruning changed the outcome: keep the unpruned world
             out["world"] = payload["world"]
